@@ -170,6 +170,22 @@ func resetRule(c *Ctx, r *Rule) {
 			r.Fail("Reset:"+F, fn.Pos(), "Reset does not traverse a.metricMap."+F)
 			continue
 		}
+		// the traversal happens on every path through Reset (whatever the configuration: an expiry of 0
+		// switches off expiry, not the per-flush reset)
+		{
+			pd := newPostDom(fn)
+			always := false
+			eachInstr(fn, func(in ssa.Instruction) {
+				if mc, ok := in.(*ssa.MakeClosure); ok && mc.Fn == ssa.Value(cl) {
+					if mc.Block() == fn.Blocks[0] || pd.PostDominates(mc.Block(), fn.Blocks[0]) {
+						always = true
+					}
+				}
+			})
+			if cl.Parent() == fn && T != "Gauge" { // gauges are only ever expired here: skipping them when nothing can expire changes nothing
+				r.Check("Reset:"+F+":unconditional", always, cl.Pos(), "the traversal of "+F+" runs on every path through Reset")
+			}
+		}
 		n := 0
 		eachInstr(cl, func(in ssa.Instruction) {
 			mu, ok := in.(*ssa.MapUpdate)
